@@ -18,6 +18,7 @@ From NextestModel Require Model.Filter Model.FutureQueue Model.Unit Model.Run Mo
 From NextestModel Require Model.NameFilter Model.FilterFull Proofs.FilterGlue.
 From NextestModel Require Model.Scripts Model.EnvFileLine Proofs.EnvFileLine.
 From NextestModel Require Model.DisplaySections Proofs.DisplaySections.
+From NextestModel Require Model.EnvOrder Proofs.EnvOrder.
 Import ListNotations.
 Open Scope N_scope.
 
@@ -31,6 +32,8 @@ Module MEL := NextestModel.Model.EnvFileLine.
 Module PEL := NextestModel.Proofs.EnvFileLine.
 Module MSe := NextestModel.Model.DisplaySections.
 Module PSe := NextestModel.Proofs.DisplaySections.
+Module MEO := NextestModel.Model.EnvOrder.
+Module PEO := NextestModel.Proofs.EnvOrder.
 Module MJ := NextestModel.Model.Junit.
 Module MFl := NextestModel.Model.Filter.
 Module MD := NextestModel.Model.Dispatcher.
@@ -738,3 +741,39 @@ Lemma gen_display_sections_is_model :
     G.display_sections u o = map fst (model_sections u o ho he hc) /\
     G.display_section_headers u o ho he hc = map snd (model_sections u o ho he hc).
 Proof. intros [fs ff de] [[so se]|c] ho he hc; split; bridge. Qed.
+
+(* ---------------------------------------------------------------- the order of the environment sources in TestCommand::new (Model/EnvOrder.v, C15) *)
+(* == block env_order == *)
+(* Who provides the value a call on the Command writes (the hand-written side of this tie): the [env] table of the cargo
+   configuration (EnvironmentMap::apply_env), OUT_DIR and the build script's rustc-env variables are the user's / the
+   build's; variables whose name begins with NEXTEST, __NEXTEST or CARGO_, apply_package_env (CARGO_PKG_*, when it is not
+   followed) and apply_ld_dyld_env (the dynamic library path and its NEXTEST_LD_* / NEXTEST_DYLD_* copies) are nextest's
+   own; Command::new / current_dir write no variable; anything else is unknown to the model. ("*env": env called in a
+   loop.) *)
+Module EnvClassify.
+  Import Strings.String.
+  Definition of_key (k : string) : MEO.source :=
+    if String.eqb k "OUT_DIR" then MEO.SrcUser
+    else if prefix "NEXTEST" k || prefix "__NEXTEST" k || prefix "CARGO_" k then MEO.SrcNextest
+    else MEO.SrcUnknown.
+  Definition of_call (c : string * list string) : MEO.source :=
+    let '(m, args) := c in
+    if String.eqb m "new" || String.eqb m "current_dir" then MEO.SrcNeutral
+    else if String.eqb m "apply_env" || String.eqb m "apply_build_script_env" then MEO.SrcUser
+    else if String.eqb m "apply_package_env" || String.eqb m "apply_ld_dyld_env" then MEO.SrcNextest
+    else if String.eqb m "env" || String.eqb m "*env" then
+           match args with k :: _ => of_key k | [] => MEO.SrcUnknown end
+    else MEO.SrcUnknown.
+End EnvClassify.
+(* TestCommand::new, the calls it makes on the Command in order (apply_package_env followed), regenerated from the source:
+   whether or not the package has a build-script output directory ([c]: the condition of that `if` is an input), every
+   call is one the model knows, every user / build source comes before every source of nextest's own, and both kinds
+   occur (the [env] table first). *)
+Lemma gen_env_order_is_model :
+  forall c,
+    let sources := map EnvClassify.of_call (G.test_command_env c) in
+    MEO.all_classified sources = true /\
+    MEO.user_before_nextest sources = true /\
+    existsb MEO.is_user sources = true /\
+    existsb (fun s => match s with MEO.SrcNextest => true | _ => false end) sources = true.
+Proof. intros c. destruct c; vm_compute; repeat split; reflexivity. Qed.
